@@ -213,6 +213,62 @@ def enum_world(seed):
             "a quarter of the updates interrupted at the final rename (and later retried by chance); file content compared after every step", "cases": cases, "failures": fails}
 
 
+def t_slotatom(ex):
+    """slotatom_if_slotted(repos, atom): an atom without a slot, and an atom with ANY slot string other than "0" (0.1, 01, 3.12 ...), goes on to
+    update_worldset as it is -- the same object, nothing raised, the repository not even asked.  (Slot 0 itself -- recorded by the bare name when the
+    repository holds the package in one slot -- builds a set whose size the engine cannot take: that branch stays with the bounded enumeration.)"""
+    import types
+    import z3
+    from pyvc.api import call, Interp
+    from pyvc.models import Model, ModelHost
+    from pyvc.sym import KStr, SBool, SObj, OutOfSubset
+    import pkgcore.scripts.pmerge as M
+    shape = ("no slot", "a slot other than 0")[ex.choose(2)]
+    P = f"C30.slotatom_if_slotted[{shape}]"
+    slot = None if shape == "no slot" else KStr.fresh("slot") if shape != "slot 0" else "0"
+    if shape == "a slot other than 0":
+        ex.assume(slot != "0")
+        ex.assume(slot.length() >= 1)
+        ex.inputs.update({"slot": slot})
+    asked = []
+    nmatch = ex.choose(3) if shape == "slot 0" else 0
+    found = [types.SimpleNamespace(slot=("0", "7")[ex.choose(2)]) for i in range(nmatch)]
+
+    class Repo(ModelHost):
+        def getattr(self, it_, name):
+            if name == "itermatch":
+                def itermatch(it__, a, **kw):
+                    asked.append(a)
+                    return list(found)
+                return Model(itermatch, "repos.itermatch")
+            raise OutOfSubset(name)
+    checkatom = SObj(types.SimpleNamespace, {"slot": slot, "key": "cat/pkg"})
+    it = Interp(ex, label=P, models={M.atom: lambda it_, s_, *a, **k: ("atom", s_)})
+    out = call(it, it.target("src/pkgcore/scripts/pmerge.py", "slotatom_if_slotted"), Repo(), checkatom)
+    ex.oblige(f"{P}.raises.nothing", not out.raised, kind="exceptional-postcondition")
+    if out.raised:
+        return
+    ex.cover("returns")
+    if shape != "slot 0":
+        ex.oblige(f"{P}.ensures.the_atom_goes_on_unchanged", out.value is checkatom)
+        ex.oblige(f"{P}.ensures.the_repository_is_not_consulted", asked == [])
+
+
+def replay_slotatom(model):
+    """the real slotatom_if_slotted on an atom-like object with the counter-model's slot, the package present in the repository in that slot"""
+    import types
+    from pkgcore.scripts.pmerge import slotatom_if_slotted
+    slot = model.get("slot")
+    asked = []
+    a = types.SimpleNamespace(slot=slot, key="cat/pkg")
+    repo = types.SimpleNamespace(itermatch=lambda x, **kw: (asked.append(x), [types.SimpleNamespace(slot=slot)])[1])
+    try:
+        r = slotatom_if_slotted(repo, a)
+    except Exception as e:
+        return True, f"slotatom_if_slotted(<repository holding cat/pkg in slot {slot!r}>, cat/pkg:{slot}) raised {type(e).__name__}: {e}"
+    return (r is not a or bool(asked)), f"slot {slot!r}: returned {'the atom itself' if r is a else repr(r)}, repository consulted {len(asked)} time(s); a slot other than '0' goes on unchanged without a look-up"
+
+
 def enum_pmerge_requests(seed):
     """a request as pmerge makes it: the atom goes through slotatom_if_slotted (with the repository the package was matched in) and then through
     update_worldset on the real WorldFile.  For every slot shape, with the package present in the repository in that slot: adding records exactly
@@ -267,6 +323,7 @@ def tasks():
              fallback={"unroll": 3}),
         Task("C30.FileList.flush", t_flush, [(FILE, "FileList.flush")]),
         Task("C30.update_worldset", t_update_worldset, [("src/pkgcore/scripts/pmerge.py", "update_worldset")], enumerate=enum_world),
+        Task("C30.slotatom_if_slotted", t_slotatom, [("src/pkgcore/scripts/pmerge.py", "slotatom_if_slotted")]),
         Task("C30.pmerge_requests", None, [("src/pkgcore/scripts/pmerge.py", "slotatom_if_slotted"), ("src/pkgcore/scripts/pmerge.py", "update_worldset")], enumerate=enum_pmerge_requests),
     ]
 
@@ -302,4 +359,4 @@ def replay_modify(model):
                                                 + (f"; raised KeyError({raised}) although the entry was present" if raised else ""))
 
 
-REPLAY = {"C30.WorldFile._modify": replay_modify}
+REPLAY = {"C30.WorldFile._modify": replay_modify, "C30.slotatom_if_slotted[a slot other than 0]": replay_slotatom}
